@@ -44,7 +44,25 @@ const (
 	// RFC layout) that name an application the client does not know / no application at all
 	successVSAUnknown = "success-vsa-unknown-app"
 	successVSAVendor  = "success-vsa-vendor-only"
+	// 2001 and a shared application, delivered DelayPct % of the RetransmitInterval AFTER the
+	// transmission it answers (every other reaction is delivered inside the transport's Write)
+	successLate = "success-late"
+	// 2001 with the application list Case.CEAApps: plain Auth-/Acct-Application-Id AVPs and
+	// Vendor-Specific-Application-Id groups in any order, each naming an application the client
+	// advertised (in either form), the relay id, or an id that no dictionary declares
+	successMix = "success-mix"
 )
+
+// CEAApp is one application entry of a success-mix CEA.
+type CEAApp struct {
+	Typ        string `json:"typ"` // auth | acct
+	ID         uint32 `json:"id"`
+	VSA        bool   `json:"vsa,omitempty"`         // inside a Vendor-Specific-Application-Id group (vendor 10415)
+	VendorLast bool   `json:"vendor_last,omitempty"` // the group lists the application before its Vendor-Id
+}
+
+// ids that neither dict.Default nor any embedded dictionary declares
+var unknownApps = []CEAApp{{Typ: "auth", ID: 999}, {Typ: "acct", ID: 998}, {Typ: "auth", ID: 999999}, {Typ: "acct", ID: 7777}, {Typ: "auth", ID: 7778}}
 
 // Extras the peer sends after a completed handshake.
 const (
@@ -74,11 +92,81 @@ type Case struct {
 	Literal bool     `json:"literal,omitempty"`
 	Script  []string `json:"script"` // reaction to transmission 1, 2, ... (missing entries: silence)
 	Extras  []string `json:"extras,omitempty"`
+	// Client options that the handshake clauses do not mention: the retransmission budget, the
+	// spacing and the outcome are the same whatever they are.
+	Watchdog         bool     `json:"watchdog,omitempty"`          // Client.EnableWatchdog (the scripted peer answers every DWR with a success DWA)
+	WatchdogMs       int      `json:"watchdog_ms,omitempty"`       // Client.WatchdogInterval, smaller or larger than the RetransmitInterval; 0: left unset
+	SupportedVendors []uint32 `json:"supported_vendors,omitempty"` // Client.SupportedVendorID
+	DelayPct         int      `json:"delay_pct,omitempty"`         // success-late: delay of the CEA in % of the RetransmitInterval
+	CEAApps          []CEAApp `json:"cea_apps,omitempty"`          // success-mix: the application entries of the CEA, in wire order
+}
+
+// advertised: the applications the client was told to advertise, as (type, id).
+func (c Case) advertised() []CEAApp {
+	var out []CEAApp
+	for _, id := range c.Auth {
+		out = append(out, CEAApp{Typ: "auth", ID: id})
+	}
+	for _, id := range c.Acct {
+		out = append(out, CEAApp{Typ: "acct", ID: id})
+	}
+	if c.VSAuth {
+		out = append(out, CEAApp{Typ: "auth", ID: 16777251})
+	}
+	return out
+}
+
+// shares: the entry names an application the client advertised (same id, same type, whichever
+// of the two forms carries it) or the relay application id.
+func (c Case) shares(e CEAApp) bool {
+	if e.ID == 0xffffffff {
+		return true
+	}
+	for _, a := range c.advertised() {
+		if a.Typ == e.Typ && a.ID == e.ID {
+			return true
+		}
+	}
+	return false
+}
+
+func (c Case) mixShares() bool {
+	for _, e := range c.CEAApps {
+		if c.shares(e) {
+			return true
+		}
+	}
+	return false
+}
+
+func (e CEAApp) node() *refcodec.Node {
+	code := uint32(258)
+	if e.Typ == "acct" {
+		code = 259
+	}
+	app := &refcodec.Node{Code: code, Flags: 0x40, Payload: refcodec.U32(e.ID)}
+	if !e.VSA {
+		return app
+	}
+	vendor := &refcodec.Node{Code: 266, Flags: 0x40, Payload: refcodec.U32(10415)}
+	g := &refcodec.Node{Code: 260, Flags: 0x40, Group: true, Children: []*refcodec.Node{vendor, app}}
+	if e.VendorLast {
+		g.Children = []*refcodec.Node{app, vendor}
+	}
+	return g
 }
 
 func (c Case) interval() time.Duration { return time.Duration(c.IntervalMs) * time.Millisecond }
 
 func terminal(a string) bool { return a != silence && a != notCEA }
+
+// reaction: what the peer does at the k-th transmission (1-based).
+func (c Case) reaction(k int) string {
+	if k >= 1 && k-1 < len(c.Script) {
+		return c.Script[k-1]
+	}
+	return silence
+}
 
 // expected outcome from the script: index (1-based) of the deciding transmission, success?
 func (c Case) expect() (k int, ok bool) {
@@ -88,7 +176,7 @@ func (c Case) expect() (k int, ok bool) {
 			a = c.Script[i]
 		}
 		if terminal(a) {
-			return i + 1, a == success || a == successPlus || a == successRelay
+			return i + 1, a == success || a == successPlus || a == successRelay || a == successLate || (a == successMix && c.mixShares())
 		}
 	}
 	return c.MaxRetransmits + 1, false
@@ -102,6 +190,19 @@ func (c Case) firstApp() uint32 {
 		return c.Acct[0]
 	}
 	return 16777251
+}
+
+// answerApp: the application of the answers that follow the handshake - the first advertised
+// one; after a success-mix CEA the first application that the CEA shares with the client.
+func (c Case) answerApp() uint32 {
+	if k, ok := c.expect(); ok && k-1 < len(c.Script) && c.Script[k-1] == successMix {
+		for _, e := range c.CEAApps {
+			if c.shares(e) && e.ID != 0xffffffff {
+				return e.ID
+			}
+		}
+	}
+	return c.firstApp()
 }
 
 func (c Case) sharedApp() *refcodec.Node {
@@ -125,8 +226,13 @@ func (c Case) cea(kind string, hbh, e2e uint32) []byte {
 	var nodes []*refcodec.Node
 	flags := uint8(0)
 	switch kind {
-	case success, dupSuccess:
+	case success, dupSuccess, successLate:
 		nodes = append([]*refcodec.Node{rc, oh, or}, append(rest, c.sharedApp())...)
+	case successMix:
+		nodes = append([]*refcodec.Node{rc, oh, or}, rest...)
+		for _, e := range c.CEAApps {
+			nodes = append(nodes, e.node())
+		}
 	case successRelay:
 		nodes = append([]*refcodec.Node{rc, oh, or}, append(rest, &refcodec.Node{Code: 258, Flags: 0x40, Payload: refcodec.U32(0xffffffff)})...)
 	case successPlus:
@@ -197,7 +303,11 @@ func runOnce(c Case) result {
 			}
 		}
 	}()
-	cli := &sm.Client{Handler: machine, MaxRetransmits: uint(c.MaxRetransmits), RetransmitInterval: c.interval()}
+	cli := &sm.Client{Handler: machine, MaxRetransmits: uint(c.MaxRetransmits), RetransmitInterval: c.interval(),
+		EnableWatchdog: c.Watchdog, WatchdogInterval: time.Duration(c.WatchdogMs) * time.Millisecond}
+	for _, v := range c.SupportedVendors {
+		cli.SupportedVendorID = append(cli.SupportedVendorID, diam.NewAVP(avp.SupportedVendorID, avp.Mbit, 0, datatype.Unsigned32(v)))
+	}
 	for _, id := range c.Auth {
 		cli.AuthApplicationID = append(cli.AuthApplicationID, diam.NewAVP(avp.AuthApplicationID, avp.Mbit, 0, datatype.Unsigned32(id)))
 	}
@@ -245,17 +355,28 @@ func runOnce(c Case) result {
 	var tx int
 	mc.WriteHook = func(b []byte, accept func([]byte)) (int, error) {
 		accept(b)
+		h, err := refcodec.DecodeHeader(b)
+		if err == nil && h.Code == 280 && h.Flags&0x80 != 0 {
+			// a watchdog request of a client dialled with EnableWatchdog (after the handshake):
+			// answered at once with a success DWA, it is no transmission of the CER
+			mc.Feed(refcodec.EncodeMessage(refcodec.Header{Version: 1, Code: 280, HopByHop: h.HopByHop, EndToEnd: h.EndToEnd},
+				[]*refcodec.Node{{Code: 268, Flags: 0x40, Payload: refcodec.U32(2001)}, {Code: 264, Flags: 0x40, Payload: []byte("srv.example")},
+					{Code: 296, Flags: 0x40, Payload: []byte("example")}}, false))
+			return len(b), nil
+		}
 		tx++
 		a := silence
 		if tx-1 < len(c.Script) {
 			a = c.Script[tx-1]
 		}
-		h, err := refcodec.DecodeHeader(b)
 		if err != nil {
 			return len(b), nil
 		}
 		switch a {
 		case silence:
+		case successLate:
+			msg := c.cea(a, h.HopByHop, h.EndToEnd)
+			time.AfterFunc(c.interval()*time.Duration(c.DelayPct)/100, func() { mc.Feed(msg) })
 		case notCEA:
 			mc.Feed(refcodec.EncodeMessage(refcodec.Header{Version: 1, Code: 280, HopByHop: h.HopByHop, EndToEnd: h.EndToEnd},
 				[]*refcodec.Node{{Code: 268, Flags: 0x40, Payload: refcodec.U32(2001)}, {Code: 264, Flags: 0x40, Payload: []byte("srv.example")},
@@ -282,10 +403,18 @@ func runOnce(c Case) result {
 		mc.Close()
 		return result{fail: ev.Failf("dial-never-returns", "NewConn did not return within 10 s (budget %d transmissions x %v)", c.MaxRetransmits+1, c.interval())}
 	}
-	elapsed := time.Since(start)
+	returned := time.Now()
+	elapsed := returned.Sub(start)
 	defer func() { mc.Close() }()
 
-	writes := mc.Writes()
+	// the transmissions of the CER (a client with the watchdog enabled may already have sent a DWR)
+	var writes []memnet.WriteRec
+	for _, w := range mc.Writes() {
+		if h, err := refcodec.DecodeHeader(w.Data); err == nil && h.Code == 280 {
+			continue
+		}
+		writes = append(writes, w)
+	}
 	wantK, wantOK := c.expect()
 	// --- transmissions: identical bytes, bounded count, spacing
 	if len(writes) == 0 {
@@ -308,6 +437,13 @@ func runOnce(c Case) result {
 	// --- outcome
 	if wantOK {
 		if r.err != nil || r.c == nil {
+			if c.reaction(wantK) == successLate && len(writes) <= wantK {
+				if waited := returned.Sub(writes[len(writes)-1].End); waited < c.interval() {
+					// no scheduling delay explains an error that comes before the interval is over
+					return result{fail: ev.Failf("gave-up-early", "a success CEA was due %d %% of the RetransmitInterval (%v) after transmission %d of at most %d; NewConn returned %v only %v after that transmission had been written (EnableWatchdog %v, WatchdogInterval %d ms)", c.DelayPct, c.interval(), wantK, c.MaxRetransmits+1, r.err, waited, c.Watchdog, c.WatchdogMs)}
+				}
+				return result{timing: true, fail: ev.Failf("handshake-should-succeed", "a success CEA was fed %d %% of the RetransmitInterval (%v) after transmission %d of at most %d, NewConn returned error %v after %d transmissions", c.DelayPct, c.interval(), wantK, c.MaxRetransmits+1, r.err, len(writes))}
+			}
 			timing := len(writes) > wantK || (wantK == c.MaxRetransmits+1 && elapsed >= time.Duration(wantK)*c.interval())
 			return result{timing: timing, fail: ev.Failf("handshake-should-succeed", "an acceptable CEA answered transmission %d of at most %d, NewConn returned error %v after %d transmissions", wantK, c.MaxRetransmits+1, r.err, len(writes))}
 		}
@@ -324,6 +460,13 @@ func runOnce(c Case) result {
 		if len(writes) < wantK {
 			return result{fail: ev.Failf("gave-up-early", "the deciding event is at transmission %d but only %d transmissions were made (error %v)", wantK, len(writes), r.err)}
 		}
+		if a := c.reaction(wantK); !terminal(a) {
+			// the peer never replied: the last transmission, too, is given a full RetransmitInterval
+			// (lower bound: from the end of its Write, taken inside the transport, to the return of the dial)
+			if waited := returned.Sub(writes[len(writes)-1].End); waited < c.interval() {
+				return result{fail: ev.Failf("gave-up-early", "the peer sent no CEA; NewConn returned %v only %v after transmission %d of the CER had been written, RetransmitInterval is %v (MaxRetransmits %d, EnableWatchdog %v, WatchdogInterval %d ms)", r.err, waited, len(writes), c.interval(), c.MaxRetransmits, c.Watchdog, c.WatchdogMs)}
+			}
+		}
 		return result{}
 	}
 	// --- stability after a successful handshake
@@ -334,7 +477,7 @@ func runOnce(c Case) result {
 			if sent%2 == 1 {
 				// every other one in the application the client advertised
 				sent++
-				mc.Feed(appAnswerFor(sent, c.firstApp()))
+				mc.Feed(appAnswerFor(sent, c.answerApp()))
 				continue
 			}
 			sent++
@@ -344,7 +487,7 @@ func runOnce(c Case) result {
 		}
 	}
 	sent++
-	mc.Feed(appAnswerFor(sent, c.firstApp())) // a final answer after all extras, in the application the client advertised
+	mc.Feed(appAnswerFor(sent, c.answerApp())) // a final answer after all extras, in the application the client advertised
 	deadline := time.After(3 * time.Second)
 	for n := 0; n < sent; n++ {
 		select {
@@ -353,11 +496,13 @@ func runOnce(c Case) result {
 			closed, _ := mc.Closed()
 			mu.Lock()
 			defer mu.Unlock()
-			return result{fail: ev.Failf("unstable-after-handshake", "after the handshake the peer sent %v and %d application answers; only %d reached the handler within 3 s (transport closed: %v)", c.Extras, sent, len(answers), closed)}
+			// with the watchdog running, a DWA that a busy machine dispatches later than the whole
+			// retransmission budget makes the client hang up: such a verdict must reproduce
+			return result{timing: c.Watchdog && c.WatchdogMs > 0, fail: ev.Failf("unstable-after-handshake", "after the handshake the peer sent %v and %d application answers; only %d reached the handler within 3 s (transport closed: %v)", c.Extras, sent, len(answers), closed)}
 		}
 	}
 	if closed, _ := mc.Closed(); closed {
-		return result{fail: ev.Failf("unstable-after-handshake", "the transport was closed after the extras %v although the handshake had succeeded", c.Extras)}
+		return result{timing: c.Watchdog && c.WatchdogMs > 0, fail: ev.Failf("unstable-after-handshake", "the transport was closed after the extras %v although the handshake had succeeded", c.Extras)}
 	}
 	mu.Lock()
 	defer mu.Unlock()
@@ -552,12 +697,91 @@ func genCase(t *rapid.T) Case {
 	for i := 0; i < n; i++ {
 		c.Script = append(c.Script, rapid.SampledFrom([]string{silence, silence, notCEA}).Draw(t, "no-reply"))
 	}
-	c.Script = append(c.Script, rapid.SampledFrom([]string{success, success, success, successPlus, successRelay, failCode, noResultCode, noOriginHost, successNoApp, successUnknApp, successVSAUnknown, successVSAVendor, disconnect, silence}).Draw(t, "reaction"))
+	react := rapid.SampledFrom([]string{success, success, success, successPlus, successRelay, failCode, noResultCode, noOriginHost, successNoApp, successUnknApp, successVSAUnknown, successVSAVendor, disconnect, silence,
+		successLate, successLate, successMix, successMix, successMix}).Draw(t, "reaction")
+	c.Script = append(c.Script, react)
+	if react == successLate {
+		c.DelayPct = rapid.SampledFrom([]int{25, 50}).Draw(t, "delay-pct")
+	}
+	if react == successMix {
+		c.CEAApps = genMix(t, c)
+	}
 	k := rapid.IntRange(0, 5).Draw(t, "extras")
 	for i := 0; i < k; i++ {
 		c.Extras = append(c.Extras, rapid.SampledFrom([]string{dupSuccess, lateFailure, malformed, appAnswer}).Draw(t, "extra"))
 	}
+	// options that must not influence the handshake
+	if rapid.Bool().Draw(t, "watchdog") {
+		c.Watchdog = true
+		switch rapid.IntRange(0, 3).Draw(t, "watchdog-interval") {
+		case 0, 1: // shorter than the RetransmitInterval
+			c.WatchdogMs = rapid.IntRange(5, c.IntervalMs/2).Draw(t, "watchdog-ms")
+		case 2: // longer
+			c.WatchdogMs = c.IntervalMs * rapid.IntRange(2, 5).Draw(t, "watchdog-factor")
+		}
+	} else if rapid.IntRange(0, 3).Draw(t, "watchdog-interval-unused") == 0 {
+		c.WatchdogMs = rapid.IntRange(5, c.IntervalMs/2).Draw(t, "watchdog-ms") // set but not enabled
+	}
+	c.SupportedVendors = rapid.SampledFrom([][]uint32{nil, nil, {10415}, {10415, 13, 5535}}).Draw(t, "supported-vendors")
 	return c
+}
+
+// genMix: the application entries of a success-mix CEA. Shapes: plain ids that no dictionary
+// declares next to vendor-specific groups naming an advertised application; the reverse; only
+// unknown ones in both forms; any mixture. The order on the wire is drawn as well.
+func genMix(t *rapid.T, c Case) []CEAApp {
+	adv := c.advertised()
+	shared := func(vsa bool) CEAApp {
+		e := adv[rapid.IntRange(0, len(adv)-1).Draw(t, "shared-app")]
+		e.VSA = vsa
+		if vsa {
+			e.VendorLast = rapid.IntRange(0, 3).Draw(t, "vendor-last") == 0
+		}
+		return e
+	}
+	unknown := func(vsa bool) CEAApp {
+		e := rapid.SampledFrom(unknownApps).Draw(t, "unknown-app")
+		e.VSA = vsa
+		if vsa {
+			e.VendorLast = rapid.IntRange(0, 3).Draw(t, "vendor-last") == 0
+		}
+		return e
+	}
+	var out []CEAApp
+	switch rapid.IntRange(0, 4).Draw(t, "mix-shape") {
+	case 0, 1: // unknown plain ids, the shared application only in a group
+		for i, n := 0, rapid.IntRange(1, 3).Draw(t, "n-unknown"); i < n; i++ {
+			out = append(out, unknown(false))
+		}
+		out = append(out, shared(true))
+		if rapid.Bool().Draw(t, "second-group") {
+			out = append(out, unknown(true))
+		}
+	case 2: // the reverse
+		for i, n := 0, rapid.IntRange(1, 2).Draw(t, "n-unknown"); i < n; i++ {
+			out = append(out, unknown(true))
+		}
+		out = append(out, shared(false))
+	case 3: // nothing shared, both forms
+		out = append(out, unknown(false), unknown(true))
+		if rapid.Bool().Draw(t, "third") {
+			out = append(out, unknown(rapid.Bool().Draw(t, "third-vsa")))
+		}
+	default:
+		for i, n := 0, rapid.IntRange(1, 4).Draw(t, "n-entries"); i < n; i++ {
+			switch rapid.IntRange(0, 5).Draw(t, "entry") {
+			case 0, 1:
+				out = append(out, shared(rapid.Bool().Draw(t, "vsa")))
+			case 2:
+				out = append(out, CEAApp{Typ: "auth", ID: 0xffffffff})
+			default:
+				out = append(out, unknown(rapid.Bool().Draw(t, "vsa")))
+			}
+		}
+	}
+	// any order on the wire
+	perm := rapid.Permutation(out).Draw(t, "wire-order")
+	return perm
 }
 
 func classify(c Case) (bool, []string) {
@@ -577,6 +801,39 @@ func classify(c Case) (bool, []string) {
 		react = c.Script[k-1]
 	}
 	cl = append(cl, "deciding:"+react)
+	if c.Watchdog {
+		switch {
+		case c.WatchdogMs == 0:
+			cl = append(cl, "watchdog-enabled:interval-unset")
+		case c.WatchdogMs < c.IntervalMs:
+			cl = append(cl, "watchdog-enabled:interval-shorter-than-retransmit-interval")
+		default:
+			cl = append(cl, "watchdog-enabled:interval-longer-than-retransmit-interval")
+		}
+	}
+	if len(c.SupportedVendors) > 0 {
+		cl = append(cl, "supported-vendor-ids")
+	}
+	if react == successMix {
+		plainUnknown, plainShared, vsaShared, vsaUnknown := false, false, false, false
+		for _, e := range c.CEAApps {
+			sh := c.shares(e)
+			plainUnknown = plainUnknown || (!e.VSA && !sh)
+			plainShared = plainShared || (!e.VSA && sh)
+			vsaShared = vsaShared || (e.VSA && sh)
+			vsaUnknown = vsaUnknown || (e.VSA && !sh)
+		}
+		switch {
+		case plainUnknown && vsaShared && !plainShared:
+			cl = append(cl, "mix:unknown-plain-ids-shared-application-only-in-a-group")
+		case vsaUnknown && plainShared && !vsaShared:
+			cl = append(cl, "mix:unknown-groups-shared-application-only-plain")
+		case !plainShared && !vsaShared:
+			cl = append(cl, "mix:nothing-shared")
+		default:
+			cl = append(cl, "mix:other")
+		}
+	}
 	nt := k > 1 || !ok
 	if k > 1 {
 		cl = append(cl, "retransmitted")
@@ -610,7 +867,7 @@ func classify(c Case) (bool, []string) {
 
 var prop = ev.Register(&ev.Prop[Case]{
 	ID: "C12", Name: "handshake",
-	Rule: "client settings (MaxRetransmits 0..4, RetransmitInterval 40..70 ms, identity, configured or endpoint-derived host addresses incl. IPv6, zoned link-local and multi-homed (SCTP style a/b:port) endpoints, advertised auth / acct / vendor-specific applications that the local dictionary supports) x peer script per received transmission {silence, messages that are not a CEA (a success DWA with the CER's identifiers, an application answer), success CEA sharing an advertised application (or, from a relay, the relay application id only), failing Result-Code, CEA without Result-Code / Origin-Host, success without / with only unknown applications, disconnect}, reacting inside the transport's Write; after a successful handshake 0..5 extras {duplicate success CEA, late failing CEA, malformed CEA, application answers}; non-trivial = a retransmission, a failure outcome, or an extra CEA after success; a mismatch that a scheduling delay could explain must reproduce 3 times",
+	Rule: "client settings (MaxRetransmits 0..4, RetransmitInterval 40..70 ms, identity, configured or endpoint-derived host addresses incl. IPv6, zoned link-local and multi-homed (SCTP style a/b:port) endpoints, advertised auth / acct / vendor-specific applications that the local dictionary supports) x peer script per received transmission {silence, messages that are not a CEA (a success DWA with the CER's identifiers, an application answer), success CEA sharing an advertised application (or, from a relay, the relay application id only), failing Result-Code, CEA without Result-Code / Origin-Host, success without / with only unknown applications, success whose application list mixes plain Auth-/Acct-Application-Id AVPs and Vendor-Specific-Application-Id groups in any wire order - ids no dictionary declares, applications the client advertised (in either form), the relay id - accepted exactly when one entry is shared, disconnect}, reacting inside the transport's Write, or a success CEA delivered 25 / 50 % of the interval after the transmission; client options the handshake clauses do not mention are drawn as well and must not matter: EnableWatchdog with a WatchdogInterval shorter / longer than the RetransmitInterval or unset (DWRs are answered by the peer and are no CER transmissions), Supported-Vendor-Id lists; a peer that never replies is given up no earlier than a RetransmitInterval after the last transmission was written; after a successful handshake 0..5 extras {duplicate success CEA, late failing CEA, malformed CEA, application answers}; non-trivial = a retransmission, a failure outcome, or an extra CEA after success; a mismatch that a scheduling delay could explain must reproduce 3 times",
 	Gen:  genCase, Run: runCase, Classify: classify, Attempts: 2,
 })
 
@@ -649,6 +906,53 @@ func TestC12Canonical(t *testing.T) {
 			c.Script = []string{success}
 			if !yield(c) {
 				return
+			}
+		}
+		// success CEAs mixing plain ids and vendor-specific groups, for a client that advertises
+		// plain applications and for one that advertises S6a in a group only
+		unk, unkAcct, s6a := CEAApp{Typ: "auth", ID: 999}, CEAApp{Typ: "acct", ID: 998}, CEAApp{Typ: "auth", ID: 16777251, VSA: true}
+		vsaUnk := CEAApp{Typ: "auth", ID: 999999, VSA: true}
+		for _, cl := range []Case{{Auth: []uint32{4}, Acct: []uint32{3}, VSAuth: true}, {VSAuth: true}, {Auth: []uint32{4}}} {
+			adv := cl.advertised()
+			plain, inGroup := adv[0], adv[0]
+			inGroup.VSA = true
+			mixes := [][]CEAApp{{unk, inGroup}, {inGroup, unk}, {unkAcct, inGroup}, {unk, unkAcct, vsaUnk, inGroup}, {vsaUnk, plain}, {plain, vsaUnk}, {unk, plain}, {unk, vsaUnk}, {vsaUnk, unkAcct},
+				{unk, {Typ: inGroup.Typ, ID: inGroup.ID, VSA: true, VendorLast: true}}, {unkAcct, {Typ: "auth", ID: 0xffffffff}}}
+			if cl.VSAuth {
+				mixes = append(mixes, []CEAApp{unk, s6a}, []CEAApp{unkAcct, vsaUnk, s6a})
+			}
+			for i, m := range mixes {
+				c := base
+				c.Auth, c.Acct, c.VSAuth = cl.Auth, cl.Acct, cl.VSAuth
+				c.CEAApps = m
+				c.Script = []string{successMix}
+				if i%2 == 1 {
+					c.Script = []string{silence, successMix}
+				}
+				if !yield(c) {
+					return
+				}
+			}
+		}
+		// options that must not influence the handshake: the watchdog with an interval shorter /
+		// longer than the RetransmitInterval / unset, x budget x silent, late- and last-answering peers
+		for _, wd := range []int{10, 0, 200} {
+			for _, budget := range []int{0, 2} {
+				scripts := [][]string{{}, {successLate}}
+				if budget > 0 {
+					scripts = append(scripts, []string{silence, silence, success}, []string{silence, successLate})
+				}
+				for _, sc := range scripts {
+					if !ev.Thorough() && wd != 10 && len(sc) < 2 {
+						continue
+					}
+					c := base
+					c.IntervalMs, c.MaxRetransmits, c.Watchdog, c.WatchdogMs, c.Script, c.DelayPct = 60, budget, true, wd, sc, 50
+					c.SupportedVendors = []uint32{10415}
+					if !yield(c) {
+						return
+					}
+				}
 			}
 		}
 	})
